@@ -29,6 +29,25 @@ type failureSet struct {
 	m       map[string]failure
 	dropped int64
 	onFull  func()
+	samples map[string]bool // fault-run samples (a fixed few cases; sorted when reported)
+}
+
+func (fs *failureSet) sample(s string) {
+	fs.mu.Lock()
+	defer fs.mu.Unlock()
+	if fs.samples == nil {
+		fs.samples = map[string]bool{}
+	}
+	fs.samples[s] = true
+}
+
+func (fs *failureSet) sampleList() []string {
+	l := make([]string, 0, len(fs.samples))
+	for s := range fs.samples {
+		l = append(l, s)
+	}
+	sort.Strings(l)
+	return l
 }
 
 func newFailureSet() *failureSet { return &failureSet{m: map[string]failure{}} }
